@@ -41,8 +41,10 @@ func (fr *Frame) exec(in ssa.Instruction) {
 	case *ssa.FieldAddr:
 		p := fr.get(x.X)
 		fr.nilCheck(x, p)
-		st := x.X.Type().Underlying().(*types.Pointer).Elem().Underlying().(*types.Struct)
-		fr.set(x, &Val{K: VPtr, T: x.Type(), Ref: p.Ref, Off: Add(p.Off, IntLit(fieldOffset(st, x.Field)))})
+		nt := x.X.Type().Underlying().(*types.Pointer).Elem()
+		st := nt.Underlying().(*types.Struct)
+		fr.guardCheck(x, p, st)
+		fr.set(x, &Val{K: VPtr, T: x.Type(), Ref: p.Ref, Off: Add(p.Off, IntLit(fieldOffset(st, x.Field))), Kinds: fieldKinds(nt, st, x.Field)})
 	case *ssa.Field:
 		s := fr.get(x.X)
 		fr.set(x, s.El[x.Field])
@@ -57,7 +59,7 @@ func (fr *Frame) exec(in ssa.Instruction) {
 		fr.nilCheck(x, p)
 		t := x.Addr.Type().Underlying().(*types.Pointer).Elem()
 		fr.checkWrite(x, p.Ref, p.Off, IntLit(sizeOf(t)))
-		fr.st.store(t, p.Ref, p.Off, canonVal(fr.get(x.Val)))
+		fr.st.storeKinds(t, p.Kinds, p.Ref, p.Off, canonVal(fr.get(x.Val)))
 	case *ssa.MakeSlice:
 		fr.makeSlice(x)
 	case *ssa.MakeInterface:
@@ -185,6 +187,13 @@ func (fr *Frame) nilCheck(in ssa.Instruction, p *Val) {
 
 // checkWrite: frame obligation for a write of n cells at (ref, off).
 func (fr *Frame) checkWrite(in ssa.Instruction, ref, off, n *Term) {
+	for _, lm := range fr.loopMods {
+		alts := []*Term{Ge(ref, lm.nextEntry)}
+		for _, r := range lm.refs {
+			alts = append(alts, Eq(ref, r))
+		}
+		fr.oblig(in, "loop.modifies", Or(alts...), fmt.Sprintf("write inside loop %d stays within its declared modifies set", lm.ord))
+	}
 	c := fr.u.contract
 	if c == nil || !c.ModSet {
 		return
@@ -487,7 +496,7 @@ func (fr *Frame) unop(x *ssa.UnOp) {
 	case token.MUL: // load
 		fr.nilCheck(x, a)
 		t := x.X.Type().Underlying().(*types.Pointer).Elem()
-		v := fr.st.load(t, a.Ref, a.Off)
+		v := fr.st.loadKinds(t, a.Kinds, a.Ref, a.Off)
 		for _, f := range validFacts(v, fr.st.Next, nil) {
 			fr.assume(f)
 		}
@@ -657,7 +666,11 @@ func (fr *Frame) indexAddr(x *ssa.IndexAddr) {
 		ar := t.Elem().Underlying().(*types.Array)
 		fr.nilCheck(x, base)
 		fr.oblig(x, "index", And(Le(IntLit(0), idx), Lt(idx, IntLit(ar.Len()))), "index out of range")
-		fr.set(x, &Val{K: VPtr, T: x.Type(), Ref: base.Ref, Off: Add(base.Off, Mul(IntLit(sizeOf(ar.Elem())), idx))})
+		var eks []string
+		if base.Kinds != nil {
+			eks = base.Kinds[:sizeOf(ar.Elem())] // all elements of an array field share their kinds
+		}
+		fr.set(x, &Val{K: VPtr, T: x.Type(), Ref: base.Ref, Off: Add(base.Off, Mul(IntLit(sizeOf(ar.Elem())), idx)), Kinds: eks})
 	default:
 		unsup("IndexAddr on %v", x.X.Type())
 	}
@@ -975,4 +988,61 @@ func nameOfCall(c *ssa.CallCommon) string {
 		return fmt.Sprintf("%s.%s", types.TypeString(c.Value.Type(), nil), c.Method.Name())
 	}
 	return strings.TrimSpace(c.Value.Name())
+}
+
+// guardCheck: lock discipline — a guarded field may only be addressed while its mutex is held.
+func (fr *Frame) guardCheck(x *ssa.FieldAddr, p *Val, st *types.Struct) {
+	gs := fr.u.v.lib.Guards
+	if len(gs) == 0 {
+		return
+	}
+	nt, ok := x.X.Type().Underlying().(*types.Pointer).Elem().(*types.Named)
+	if !ok || nt.Obj().Pkg() == nil {
+		return
+	}
+	tn := shortPkg(nt.Obj().Pkg().Path()) + "." + nt.Obj().Name()
+	for _, g := range gs {
+		if g.Type != tn || st.Field(x.Field).Name() != g.Field {
+			continue
+		}
+		for i := 0; i < st.NumFields(); i++ {
+			if st.Field(i).Name() == g.Mutex {
+				nt2 := x.X.Type().Underlying().(*types.Pointer).Elem()
+				held := fr.st.loadCell(fieldKinds(nt2, st, i)[0], p.Ref, Add(p.Off, IntLit(fieldOffset(st, i))))
+				// an object allocated by this very call is not shared yet
+				fr.oblig(x, "lock.held", Or(held, Ge(p.Ref, fr.u.next0)), fmt.Sprintf("%s.%s accessed while %s is held", tn, g.Field, g.Mutex))
+			}
+		}
+	}
+}
+
+// modTargetRef: the object a modifies-target lives in.
+func modTargetRef(env *Env, m Clause) (r *Term, err error) {
+	defer func() {
+		if rc := recover(); rc != nil {
+			if ee, ok := rc.(evalErr); ok {
+				err = fmt.Errorf("%s", string(ee))
+				return
+			}
+			panic(rc)
+		}
+	}()
+	e := m.E
+	if s, ok := e.(*ESel); ok && (s.Name == "$all" || s.Name == "$obj") {
+		base := env.eval(s.X)
+		if base.K == CVal && (base.V.K == VSlice || base.V.K == VPtr) {
+			return base.V.Ref, nil
+		}
+		if base.K == CVal && base.V.K == VMap {
+			return base.V.S, nil
+		}
+	}
+	if s, ok := e.(*ESel); ok {
+		base := env.eval(s.X)
+		if base.K == CVal && base.V.K == VPtr {
+			return base.V.Ref, nil
+		}
+	}
+	efail("unsupported modifies target %s", m.Src)
+	return nil, nil
 }
